@@ -1,4 +1,4 @@
-import EaselModel.Getopts.Histories
+import EaselModel.Getopts.Outcomes
 import EaselModel.Getopts.Abbrev
 import EaselModel.Getopts.Ranges
 /-! # C14 — option processing resolves every configuration by the documented rules
@@ -17,7 +17,7 @@ and every sequence of sources:
 * (d) `--`, arguments in order: `dashdash_ends_options`, `first_nonoption_ends_options`, `options_end_where_documented`, `args_returned_in_order`, `getArg_spec`
 * "plus/minus-prefixed booleans": no such feature exists in this version; `plus_word_is_argument` states what the code does.
 * (e) usage errors, never a crash: `every_history_ends_cleanly`, `cmdline_ends_cleanly`, `spoof_ends_cleanly`, `environment_ends_cleanly`,
-  `configfile_ends_cleanly`, `rejected_setting_changes_nothing`, `unknown_long_option`, `ambiguous_long_option`,
+  `configfile_ends_cleanly`, `setting_succeeds_iff`, `integer_argument_syntax`, `rejected_setting_changes_nothing`, `unknown_long_option`, `ambiguous_long_option`,
   `unknown_short_option`, `argument_to_flag`, `missing_argument_long`, `verifyConfig_spec`
 * (f) queries: `isUsed_iff`, `isDefault_of_default_setter`, `not_default_has_setter`
 
@@ -169,6 +169,19 @@ theorem configfile_ends_cleanly (g : G) (content : Str) (hinv : Inv g) (hw : WF 
 theorem every_history_ends_cleanly (ss : List Src) (g : G) (hinv : Inv g) (hw : WF g.opts) :
     ∃ outs g', runAll g ss = some (outs, g') ∧ outs.length = ss.length ∧ Inv g' ∧ g'.opts = g.opts ∧
       ∀ o ∈ outs, Clean o.1 o.2 ∨ o = (.einval, true) := runAll_clean ss g hinv hw
+
+/-- exactly when a setting succeeds: not yet set by this source, right type, in range, and no toggle partner that is
+    on was set or toggled by the same source; in every other case: usage error with a message -/
+theorem setting_succeeds_iff {g : G} {i src : Nat} {arg : Option Str} (hinv : Inv g)
+    (hw : WFOpt g.opts (g.opt i)) (harg : arg.isSome ∨ (g.opt i).type ≠ 3) :
+    ((∃ g', setOption g i arg src = .done g' .ok false) ↔
+      (g.setter i ≠ src ∧ verifyTypeRange (g.opt i) arg src = .good ∧ ¬ Conflict g i src (listIdx g.opts (g.opt i).toggle))) ∧
+    ((∃ g', setOption g i arg src = .done g' .esyntax true) ↔
+      ¬ (g.setter i ≠ src ∧ verifyTypeRange (g.opt i) arg src = .good ∧ ¬ Conflict g i src (listIdx g.opts (g.opt i).toggle))) :=
+  setOption_ok_iff hinv hw harg
+
+/-- "a value of the wrong type", integers: accepted iff blanks, optional sign, at least one digit, blanks -/
+theorem integer_argument_syntax (s : Str) : isInteger s = true ↔ IntSyntax s := isInteger_iff s
 
 /-- already set by this source, wrong type, out of range: usage error with a message, object untouched -/
 theorem rejected_setting_changes_nothing {g : G} {i src : Nat} {arg : Option Str}
